@@ -30,12 +30,14 @@
 #include <QPointer>
 #include <QSslSocket>
 #include <QTcpServer>
+#include <QThread>
 
 #include <linux/sockios.h>
 #include <netinet/in.h>
 #include <netinet/tcp.h>
 #include <poll.h>
 #include <sys/mman.h>
+#include <sys/socket.h>
 #include <sys/wait.h>
 #include <unistd.h>
 #include <sys/ioctl.h>
@@ -150,9 +152,19 @@ struct World {
         });
     }
 
+    // Setting up the listening socket is harness business, not an observation: when the machine
+    // is short of ephemeral ports (many short-lived loopback connections in TIME_WAIT, also from
+    // other processes) listenForClients fails; wait for ports to come back rather than give up.
     bool listen()
     {
-        if (!server.listenForClients(QHostAddress::LocalHost, 0)) {
+        bool ok = false;
+        for (int attempt = 0; attempt < 600 && !ok; attempt++) {
+            ok = server.listenForClients(QHostAddress::LocalHost, 0);
+            if (!ok) {
+                QThread::msleep(100);
+            }
+        }
+        if (!ok) {
             return false;
         }
         auto *tcp = server.findChild<QTcpServer *>();
@@ -529,10 +541,16 @@ bool runBehaviour(Ctx &ctx, const QString &caseId, const QJsonArray &steps)
             break;
         }
     }
-    // tear down: clients first, then the server (its destructor closes the listening socket)
-    w.att.sock.abort();
-    w.vic.sock.abort();
-    w.sib.sock.abort();
+    // tear down: clients first, then the server (its destructor closes the listening socket).
+    // The clients close with RST (SO_LINGER 0): no TIME_WAIT entry is left behind, which at several
+    // hundred connections per second would exhaust the ephemeral port range within a minute.
+    for (auto *c : { &w.att, &w.vic, &w.sib }) {
+        if (c->sock.socketDescriptor() >= 0) {
+            linger lg { 1, 0 };
+            setsockopt(int(c->sock.socketDescriptor()), SOL_SOCKET, SO_LINGER, &lg, sizeof(lg));
+        }
+        c->sock.abort();
+    }
     w.settle();
     return fine;
 }
